@@ -1,0 +1,30 @@
+//go:build verif
+
+package util
+
+// Contracts checked by /verif/gvc. Comment-only file (build tag verif).
+// Instants are modelled by nanos(t), the nanoseconds since the zero time (the reference of
+// time.Time.Truncate); Duration arithmetic is assumed not to overflow.
+
+// aligned(t, i, off): t - off is an exact multiple of the interval i
+//@ pred aligned(t time.Time, i time.Duration, off time.Duration) := mod(nanos(t) - off, i) == 0
+
+//@ func roundup
+//@   requires i > 0
+//@   ensures  nanos(result) > nanos(t) && nanos(result) <= nanos(t) + i && mod(nanos(result), i) == 0
+
+// sendTick hands at most one value to the consumer; that value is the interval boundary at or
+// before the tick: aligned, and within one interval of the tick.
+//@ func (*AlignedTicker).sendTick
+//@   requires at != nil && at.interval > 0 && 0 <= at.offset
+//@   ensures  sent(at.chInternal) == old(sent(at.chInternal)) || sent(at.chInternal) == old(sent(at.chInternal)) + 1
+//@   ensures  sent(at.chInternal) == old(sent(at.chInternal)) + 1 ==> aligned(lastsent(at.chInternal), at.interval, at.offset) && nanos(lastsent(at.chInternal)) <= nanos(t) && nanos(t) < nanos(lastsent(at.chInternal)) + at.interval
+//@   modifies sent
+
+// start: the initial wait is in (0, interval] for every start instant and every offset.
+//@ func (*AlignedTicker).start
+//@   requires at != nil && at.interval > 0 && 0 <= at.offset
+//@   callsite NewTimer requires 0 < d && d <= at.interval
+//@   loop 1 invariant at.interval > 0 && 0 <= at.offset && tckr != nil
+//@   modifies everything
+//@   preserves util.AlignedTicker
